@@ -7,9 +7,9 @@
  * Environment of spif_tok_eval in this unit (callees replaced by the contracts below; see split.h):
  *   str class : spif_str_get_len, spif_str_new_from_buff, spif_str_clear, spif_str_append_char,
  *               spif_str_trim  -- abstract state (len, size, s != NULL); C01 owns their bodies.
- *               spif_str_trim REQUIRES len >= 1: on an empty string the real trim computes
- *               end = s - 1 and reads s[-1] (C01 finding; shown natively for tok in
- *               findings/demos/C12_tok_empty_quote_trim.c).
+ *               spif_str_trim is taken as C01 specifies it (total on valid strs); its len == 0 defect
+ *               (C01-trim-len0, natively through tok: findings/demos/C12_tok_empty_quote_trim.c) is
+ *               seen by the B units tok.defects / tok.empty, where the real str.c runs.
  *   list class: SPIF_LIST_NEW / SPIF_LIST_DEL / SPIF_LIST_APPEND are RE-BOUND (they dispatch through
  *               spif_func_t pointers, GUIDE "function pointers") to the abstract list vlist_new /
  *               vlist_del / vlist_append whose only state is the ghost counter vg_sp_cnt.
@@ -105,11 +105,15 @@ __CPROVER_requires(self != NULL && STRV(self) && self->len < VCAP)
 __CPROVER_assigns(self->len, self->size, self->s)
 __CPROVER_ensures(STRV(self) && self->len == __CPROVER_old(self->len) + 1)
 ;
+/* total on every valid str, as C01 specifies trim (result: a valid str that is not longer, or the
+ * (NULL,0,0) state).  On a tree without findings/proposed/C01_trim.diff the len == 0 case of the real
+ * function reads s[-1] (finding C01-trim-len0); through tok that is seen where the real str.c runs,
+ * in the B units tok.defects / tok.empty. */
 spif_bool_t spif_str_trim(spif_str_t self)
 __CPROVER_requires(self != NULL && STRV(self))
-__CPROVER_requires(self->len >= 1)
 __CPROVER_assigns(self->len, self->size, self->s)
-__CPROVER_ensures(STRV(self) && self->len <= __CPROVER_old(self->len))
+__CPROVER_ensures((self->s == NULL && self->len == 0 && self->size == 0) || STRV(self))
+__CPROVER_ensures(self->len <= __CPROVER_old(self->len))
 ;
 
 #include "src/tok.c"
